@@ -110,7 +110,12 @@ func (tr *tokenReader) Next() bool {
 		return true
 	}
 	// find all byte-driven tokens
+	errsBefore := len(tr.errs)
 	tk, ok := tr.tree.findFirst(tr)
+	if !ok && len(tr.errs) > errsBefore && !errors.Is(tr.errs[len(tr.errs)-1], io.EOF) {
+		// the reader failed before yielding a byte: there is nothing to unread
+		return false
+	}
 	if len(tr.errs) != 0 {
 		lastErr := tr.errs[len(tr.errs)-1]
 		if errors.Is(lastErr, io.EOF) {
@@ -216,7 +221,11 @@ func (tr *tokenReader) nextIdent(firstRune rune) bool {
 
 func (tr *tokenReader) skipFollowingWhitespace() {
 	for {
-		b, _ := tr.readByte()
+		b, err := tr.readByte()
+		if err != nil {
+			// nothing was read (end of input), so there is nothing to put back
+			return
+		}
 		switch b {
 		case '\n':
 			tr.loc.incLine()
